@@ -301,8 +301,31 @@ CAUSES = ['internal-tag-with-tuple-out-variant', 'internal-tag-field-renamed', '
           'D9:tuple-out-with-kw-only-field', 'out_name-not-accepted']
 
 
+def holds_full_range(x, depth=0):
+    """does the typed value hold a pane.types.Range with BOTH n and step filled in (what Range.__post_init__ leaves behind)?"""
+    import pane
+    from pane.types import Range, ValueOrList
+    if isinstance(x, Range):
+        return getattr(x, 'n', None) is not None and getattr(x, 'step', None) is not None
+    if depth > 6:
+        return False
+    if isinstance(x, ValueOrList):
+        return any(holds_full_range(e, depth + 1) for e in x)
+    if isinstance(x, pane.PaneBase):
+        return any(holds_full_range(getattr(x, f.name, None), depth + 1) for f in type(x).__pane_info__.fields)
+    if isinstance(x, dict):
+        return any(holds_full_range(e, depth + 1) for e in x.values())
+    if isinstance(x, (list, tuple, set, frozenset)):
+        return any(holds_full_range(e, depth + 1) for e in x)
+    return False
+
+
 def known_cause(term, issues=None, wrapped=True, x=None):
     """the recorded cause that explains a failure on this type (and, when the typed value x is given, on this value)"""
+    if x is not None and holds_full_range(x):
+        # the recorded Range defect: __post_init__ fills both n and step, both are written, and the reader refuses a value
+        # that specifies both -- decided on the value, so that nothing else about the library types is excused
+        return 'range-holds-both-n-and-step'
     issues = class_issues(term) if issues is None else issues
     for k in CAUSES:
         if k in issues and (wrapped or k != 'wrapped-tagged-inside-untagged-union'):
@@ -354,7 +377,14 @@ def monitor_factory(into_items):
             except Exception as e:
                 out.append((f'C05:{head}:reparse:{type(e).__name__}', f'from_data({d!r}, {T!r}) raised {type(e).__name__}: {e}', None))
                 return out
-            if canon(y) != canon(x) and not (y == x and type(y) is type(x) and 'FNan' in canon(x)):
+            opaque_differs = False
+            if 'VOpaque' in canon(x) and 'FNan' not in canon(x):
+                # library values the term language does not spell out (ValueOrList, ...): their own equality decides
+                try:
+                    opaque_differs = type(y) is not type(x) or (not (y == x) and repr(y) != repr(x))     # (Decimal('NaN') != itself)
+                except Exception:
+                    opaque_differs = False
+            if opaque_differs or (canon(y) != canon(x) and not (y == x and type(y) is type(x) and 'FNan' in canon(x))):
                 if 'FNan' in canon(x):
                     return out      # NaN != NaN: equality of the round trip is not defined for it
                 out.append((f'C05:roundtrip-differs:{sig_extra or head}', f'from_data(into_data(x, T), T) = {y!r} differs from x = {x!r} (T = {T!r}, data = {d!r})', {'data': repr(d)}))
@@ -509,7 +539,7 @@ def run(ctx, out):
     out.evaluations += native_union_roundtrips(out)
     into_items = []
     cases = convprop.run(ctx, out, PROP, monitor_factory(into_items), cfg={'naming_density': 2.5, 'weights': {'class': 4.5, 'union': 1.5, 'tagged': 1.2, 'std': 1.0}},
-                         extra_cases=lambda rng: convprop.cases_from_pairs(gen.subclass_union_cases(rng), rng, 'subclass-union'))
+                         extra_cases=lambda rng: convprop.cases_from_pairs(gen.subclass_union_cases(rng), rng, 'subclass-union') + convprop.cases_from_pairs(gen.std_kind_cases(rng), rng, 'library-types'))
     if any(f in ctx['failed_files'] for f in ('Model/Into.v', 'Run/AgreeInto.v')):
         out.oblige('corr_into', False, 'serialiser model does not build')
         return
